@@ -55,10 +55,14 @@ WriteName(n, start, tbl) ==
   IF n = <<>> THEN [tbl |-> tbl, sp |-> {}, bytes |-> 1]
   ELSE WriteFrom(n, 1, start, start, tbl, {})
 
-Universe ==
+\* (property domain: every single entry fits a datagram of Absolute octets on its own)
+Fits(e) == Header + NameBytes(e.name) + (IF e.kind = "q" THEN 4 ELSE 10) + e.fixed
+           + (IF e.rname # <<>> THEN NameBytes(e.rname) ELSE 0) <= Absolute
+UniverseAll ==
   [sec : {"qd"}, name : Names, kind : {"q"}, fixed : {0}, rname : {<<>>}]
   \cup [sec : {"an", "ns", "ar"}, name : Names, kind : {"r"}, fixed : FixedWithName, rname : RNames]
   \cup [sec : {"an", "ns", "ar"}, name : Names, kind : {"r"}, fixed : Fixed, rname : {<<>>}]
+Universe == {e \in UniverseAll : Fits(e)}
 SeqsUpTo(S, n) == UNION {[1..k -> S] : k \in 0..n}
 
 Init ==
